@@ -1626,6 +1626,15 @@ def to_poly(t, ring, atomize=None, width=None, memo=None):
                 return rec(x[3]) * Poly.const(1 << x[4][1], mod)
             if ring == 'int' and o == 'or' and x[4][0] == 'ci' and x[4][1] == 0:
                 return rec(x[3])
+            if ring == 'int' and o == 'or':
+                # or-ing into bits a left shift has cleared is addition: (a << k) | c with c < 2^k, or zext(bit) likewise
+                for a_, b_ in ((x[3], x[4]), (x[4], x[3])):
+                    if a_[0] == 'op' and a_[1] == 'shl' and a_[4][0] == 'ci':
+                        k_ = a_[4][1]
+                        small = (b_[0] == 'ci' and b_[1] < (1 << k_)) or (b_[0] == 'cast' and b_[1] == 'zext' and (type_bits(term_type(b_[3]) or '') or 64) <= k_) \
+                            or (b_[0] == 'sel' and all(y[0] == 'ci' and y[1] < (1 << k_) for y in (b_[2], b_[3])))
+                        if small:
+                            return rec(a_) + rec(b_)
             if ring == 'int' and o == 'xor' and x[4][0] == 'ci' and x[4][1] == (1 << x[4][2]) - 1 and x[4][2] > 1:
                 return Poly.const(-1, mod) - rec(x[3])         # ~a == -1 - a
         if h == 'cast':
